@@ -92,6 +92,21 @@ impl World {
                 None => {
                     self.ghost.leader_of.insert(c.post.term, n);
                     self.bump("leaders_elected");
+                    {
+                        let node = &self.nodes[&n];
+                        let mut cnt = 0;
+                        let mut i = node.obs.applied + 1;
+                        while i <= node.obs.last_index {
+                            if let Some((_, _, true)) = Self::log_at(node, i) {
+                                cnt += 1;
+                            }
+                            i += 1;
+                        }
+                        if cnt >= 2 {
+                            self.ghost.stale_conf_elections.insert(c.post.term);
+                            self.bump("leader_elected_two_changes_behind_its_log");
+                        }
+                    }
                     if self.nodes[&n].reloaded_lower_commit && self.s3_precondition(n) {
                         self.ghost.tainted_terms.insert(c.post.term);
                         self.ghost.tainted_nodes.insert(n);
